@@ -2088,9 +2088,21 @@ fn c20(ctx: &Ctx, gi: usize, ri: usize, rep: &mut Report, note: &dyn Fn(&str)) {
     let e = &ctx.entries[gi];
     let g = &ctx.grammars[gi];
     let inputs = inputs_for(ctx, e, 0);
-    // known semantic gap of the option: `+` and counted repetitions are not unrolled, so the implicit
-    // skips that pest's unrolling takes between the copies are missing
-    let opt_off = e.options.contains("pest_optimizer = false") && g.has_skip() && uses_plus_or_counted(g, e, ri);
+    // With `pest_optimizer = false` the generator translates the unoptimized AST.  Where that differs from the
+    // default configuration, the only deviation recorded as a known finding is "behaves exactly like the
+    // reference machine run on the unoptimized expression" (`e+` and counted repetitions as single nodes).
+    let graw = if e.options.contains("pest_optimizer = false") {
+        match Grammar::load_raw(e.src) {
+            Ok(x) => Some(x),
+            Err(err) => {
+                rep.model_error(format!("unoptimized grammar does not load: {}", err));
+                None
+            }
+        }
+    } else {
+        None
+    };
+    let _ = uses_plus_or_counted;
     for input in &inputs {
         let case = Case {
             ctx,
@@ -2123,27 +2135,36 @@ fn c20(ctx: &Ctx, gi: usize, ri: usize, rep: &mut Report, note: &dyn Fn(&str)) {
         rep.cell(&format!("options:{}", e.options));
         rep.outcome(format!("{}:{}", b.exp_ok, b.exp_end));
         let pp = o.pp.as_ref().unwrap();
-        let suffix = if opt_off { "-pest_optimizer-false-repetition-not-unrolled-with-skip-rules" } else { "" };
-        if pp.ok != b.exp_ok || (pp.ok && pp.end != b.exp_end) {
-            rep.violation(case.violation(&format!("option-changes-recognition{}", suffix), exp_str(&b), call_str(&o.pp), format!("options: {}", e.options)));
-        } else if pp.ok {
-            let exp = pruned(g, &b.exp_toks);
-            if exp != pp.toks {
-                rep.violation(case.violation(
-                    &format!("option-changes-tree{}", suffix),
-                    show_toks(g, &exp),
-                    show_toks(g, &pp.toks),
-                    format!("options: {}", e.options),
-                ));
+        let pf = o.pf.as_ref().unwrap();
+        let exp_tree = pruned(g, &b.exp_toks);
+        let full = b.m.full_ok.unwrap_or(false);
+        let rec_bad = pp.ok != b.exp_ok || (pp.ok && pp.end != b.exp_end);
+        let tree_bad = !rec_bad && pp.ok && exp_tree != pp.toks;
+        let full_bad = !rec_bad && pf.ok != full && pp.ok == b.m.ok.is_some();
+        if !(rec_bad || tree_bad || full_bad) {
+            if rep.samples.len() < 2 && pp.ok && pp.end > 1 && e.options.contains("box_only") {
+                rep.sample(case.sample(&call_str(&o.pp), J::s(&format!("options [{}]: same as pest / default", e.options))));
+            }
+            continue;
+        }
+        // does the deviation coincide with the unoptimized-expression semantics?
+        let mut as_raw = false;
+        if let Some(gr) = &graw {
+            let r = m::run(gr, ri, input, "", &[], true, Atom::NonAtomic);
+            if !(r.diverged || r.nonprogress) {
+                let r_ok = r.ok.is_some();
+                let r_end = r.ok.as_ref().map(|x| x.0).unwrap_or(0);
+                let r_toks = pruned(gr, &base::m_toks_of(&r));
+                as_raw = pp.ok == r_ok && (!r_ok || (pp.end == r_end && pp.toks == r_toks)) && pf.ok == r.full_ok.unwrap_or(false);
             }
         }
-        let full = b.m.full_ok.unwrap_or(false);
-        let pf = o.pf.as_ref().unwrap();
-        if pp.ok == b.m.ok.is_some() && pf.ok != full && pp.ok == b.exp_ok && (!pp.ok || pp.end == b.exp_end) {
+        let suffix = if as_raw { "-pest_optimizer-false-behaves-as-the-unoptimized-expression" } else { "" };
+        if rec_bad {
+            rep.violation(case.violation(&format!("option-changes-recognition{}", suffix), exp_str(&b), call_str(&o.pp), format!("options: {}", e.options)));
+        } else if tree_bad {
+            rep.violation(case.violation(&format!("option-changes-tree{}", suffix), show_toks(g, &exp_tree), show_toks(g, &pp.toks), format!("options: {}", e.options)));
+        } else {
             rep.violation(case.violation(&format!("option-changes-full-parse{}", suffix), format!("full={}", full), format!("try_parse ok={}", pf.ok), format!("options: {}", e.options)));
-        }
-        if rep.samples.len() < 2 && pp.ok && pp.end > 1 && e.options.contains("box_only") {
-            rep.sample(case.sample(&call_str(&o.pp), J::s(&format!("options [{}]: same as pest / default", e.options))));
         }
     }
 }
